@@ -599,3 +599,159 @@ Proof.
       * change (worker_fn (a_fn b) = true) in Ob. rewrite Wb in Ob. discriminate.
       * change (negb (worker_fn (a_fn a)) = true) in Oa. rewrite Wa in Oa. discriminate.
 Qed.
+
+(** * Refutations (witnesses are the macro schedules of Sched.v, replayed on the real
+    library by checks/c15.py) *)
+
+(** The stronger reading of "each scheduled task is run before the service reports that
+    maintenance is over": at a call boundary, with IsWorking() false, every task ever
+    scheduled has been executed. *)
+Definition every_task_runs_before_idle_full (c : cfg) : Prop :=
+  forall h0 sc s t, reach c h0 sc s -> cpcs s = CIdle -> working s = false ->
+                    ~ In EBadCall (log s) -> In t (scheds (log s)) -> In t (execs (log s)).
+
+(** It is false of the model, whatever the lock configuration: the worker's exit window.
+    The last observation is is_maintenance_mode() = False; tasks 3,4,5 were scheduled by a
+    sync_user_data that returned False and have not been run. *)
+Lemma window_witness : forall c, exists s,
+  run_macro c (init true witness_window_script) witness_window_sched = Some s /\
+  cpcs s = CIdle /\ script s = [] /\ working s = false /\ ~ In EBadCall (log s) /\
+  hd_error (log s) = Some (ERet RIsMaint 0) /\ In (ERet RSyncUser 0) (log s) /\
+  In 3 (scheds (log s)) /\ ~ In 3 (execs (log s)) /\ map fst (queue s) = [3; 4; 5].
+Proof.
+  intros [a1 a2 a3 [] [] [] []]; eexists; (split; [vm_compute; reflexivity|]); cbn;
+    repeat split; auto; try tauto; intuition (try discriminate; try lia).
+Qed.
+
+Lemma every_task_runs_before_idle_refuted : forall c, ~ every_task_runs_before_idle_full c.
+Proof.
+  intros c F. destruct (window_witness c) as (s & Hrun & Hc & _ & Hw & Hb & _ & _ & Hs & He & _).
+  apply He. eapply F; eauto. eapply run_macro_reach; [apply reach_init|exact Hrun].
+Qed.
+
+(** the same window through start_maintenance: the API call returns True *)
+Lemma window_witness_start_maintenance : forall c, exists s,
+  run_macro c (init true witness_window_sm_script) witness_window_sched = Some s /\
+  hd_error (log s) = Some (ERet RIsMaint 0) /\
+  hd_error (tl (tl (tl (log s)))) = Some (ERet RStartMaint 1) /\
+  In 3 (scheds (log s)) /\ ~ In 3 (execs (log s)).
+Proof.
+  intros [a1 a2 a3 [] [] [] []]; eexists; (split; [vm_compute; reflexivity|]); cbn;
+    repeat split; auto; intuition (try discriminate; try lia).
+Qed.
+
+(** The lock-scope table of librime before the repair of Service::Set/ClearNotificationHandler
+    and Service::Notify (as generated from commit 6f9c578). *)
+Definition lock_scopes_unfixed : list acc_row := [
+  {| a_fn := "Deployer::ScheduleTask"; a_var := "Deployer::ScheduleTask"; a_kind := ACall; a_locks := [] |};
+  {| a_fn := "Deployer::ScheduleTask"; a_var := "Deployer::pending_tasks_"; a_kind := AWrite; a_locks := ["Deployer::mutex_"] |};
+  {| a_fn := "Deployer::NextTask"; a_var := "Deployer::pending_tasks_"; a_kind := ARead; a_locks := ["Deployer::mutex_"] |};
+  {| a_fn := "Deployer::NextTask"; a_var := "Deployer::pending_tasks_"; a_kind := ARead; a_locks := ["Deployer::mutex_"] |};
+  {| a_fn := "Deployer::NextTask"; a_var := "Deployer::pending_tasks_"; a_kind := AWrite; a_locks := ["Deployer::mutex_"] |};
+  {| a_fn := "Deployer::HasPendingTasks"; a_var := "Deployer::pending_tasks_"; a_kind := ARead; a_locks := ["Deployer::mutex_"] |};
+  {| a_fn := "Deployer::Run"; a_var := "Deployer::message_sink_"; a_kind := ARead; a_locks := [] |};
+  {| a_fn := "Deployer::Run"; a_var := "Deployer::NextTask"; a_kind := ACall; a_locks := [] |};
+  {| a_fn := "Deployer::Run"; a_var := "Deployer::message_sink_"; a_kind := ARead; a_locks := [] |};
+  {| a_fn := "Deployer::Run"; a_var := "Deployer::HasPendingTasks"; a_kind := ACall; a_locks := [] |};
+  {| a_fn := "Deployer::StartWork"; a_var := "Deployer::IsWorking"; a_kind := ACall; a_locks := [] |};
+  {| a_fn := "Deployer::StartWork"; a_var := "Deployer::maintenance_mode_"; a_kind := AWrite; a_locks := [] |};
+  {| a_fn := "Deployer::StartWork"; a_var := "Deployer::pending_tasks_"; a_kind := ARead; a_locks := [] |};
+  {| a_fn := "Deployer::StartWork"; a_var := "Deployer::pending_tasks_"; a_kind := ARead; a_locks := [] |};
+  {| a_fn := "Deployer::StartWork"; a_var := "Deployer::work_"; a_kind := AWrite; a_locks := [] |};
+  {| a_fn := "Deployer::StartWork"; a_var := "Deployer::Run"; a_kind := ACall; a_locks := [] |};
+  {| a_fn := "Deployer::StartWork"; a_var := "Deployer::work_"; a_kind := ARead; a_locks := [] |};
+  {| a_fn := "Deployer::StartMaintenance"; a_var := "Deployer::StartWork"; a_kind := ACall; a_locks := [] |};
+  {| a_fn := "Deployer::IsWorking"; a_var := "Deployer::work_"; a_kind := ARead; a_locks := [] |};
+  {| a_fn := "Deployer::IsWorking"; a_var := "Deployer::work_"; a_kind := ARead; a_locks := [] |};
+  {| a_fn := "Deployer::IsMaintenanceMode"; a_var := "Deployer::maintenance_mode_"; a_kind := ARead; a_locks := [] |};
+  {| a_fn := "Deployer::IsMaintenanceMode"; a_var := "Deployer::IsWorking"; a_kind := ACall; a_locks := [] |};
+  {| a_fn := "Deployer::JoinWorkThread"; a_var := "Deployer::work_"; a_kind := ARead; a_locks := [] |};
+  {| a_fn := "Deployer::JoinWorkThread"; a_var := "Deployer::work_"; a_kind := AWrite; a_locks := [] |};
+  {| a_fn := "Deployer::JoinMaintenanceThread"; a_var := "Deployer::JoinWorkThread"; a_kind := ACall; a_locks := [] |};
+  {| a_fn := "Deployer::user_data_sync_dir"; a_var := "Deployer::sync_dir"; a_kind := ARead; a_locks := [] |};
+  {| a_fn := "Deployer::user_data_sync_dir"; a_var := "Deployer::user_id"; a_kind := ARead; a_locks := [] |};
+  {| a_fn := "Service::deployer"; a_var := "Service::deployer_"; a_kind := ARead; a_locks := [] |};
+  {| a_fn := "Service::disabled"; a_var := "Service::started_"; a_kind := ARead; a_locks := [] |};
+  {| a_fn := "Service::disabled"; a_var := "Deployer::IsMaintenanceMode"; a_kind := ACall; a_locks := [] |};
+  {| a_fn := "Service::StartService"; a_var := "Service::started_"; a_kind := AWrite; a_locks := [] |};
+  {| a_fn := "Service::StopService"; a_var := "Service::started_"; a_kind := AWrite; a_locks := [] |};
+  {| a_fn := "Service::StopService"; a_var := "Service::CleanupAllSessions"; a_kind := ACall; a_locks := [] |};
+  {| a_fn := "Service::CreateSession"; a_var := "Service::disabled"; a_kind := ACall; a_locks := [] |};
+  {| a_fn := "Service::CreateSession"; a_var := "Service::sessions_"; a_kind := AWrite; a_locks := [] |};
+  {| a_fn := "Service::GetSession"; a_var := "Service::disabled"; a_kind := ACall; a_locks := [] |};
+  {| a_fn := "Service::GetSession"; a_var := "Service::sessions_"; a_kind := ARead; a_locks := [] |};
+  {| a_fn := "Service::GetSession"; a_var := "Service::sessions_"; a_kind := ARead; a_locks := [] |};
+  {| a_fn := "Service::DestroySession"; a_var := "Service::sessions_"; a_kind := ARead; a_locks := [] |};
+  {| a_fn := "Service::DestroySession"; a_var := "Service::sessions_"; a_kind := ARead; a_locks := [] |};
+  {| a_fn := "Service::DestroySession"; a_var := "Service::sessions_"; a_kind := AWrite; a_locks := [] |};
+  {| a_fn := "Service::CleanupStaleSessions"; a_var := "Service::sessions_"; a_kind := ARead; a_locks := [] |};
+  {| a_fn := "Service::CleanupStaleSessions"; a_var := "Service::sessions_"; a_kind := ARead; a_locks := [] |};
+  {| a_fn := "Service::CleanupStaleSessions"; a_var := "Service::sessions_"; a_kind := AWrite; a_locks := [] |};
+  {| a_fn := "Service::CleanupAllSessions"; a_var := "Service::sessions_"; a_kind := AWrite; a_locks := [] |};
+  {| a_fn := "Service::SetNotificationHandler"; a_var := "Service::notification_handler_"; a_kind := AWrite; a_locks := [] |};
+  {| a_fn := "Service::ClearNotificationHandler"; a_var := "Service::notification_handler_"; a_kind := AWrite; a_locks := [] |};
+  {| a_fn := "Service::Notify"; a_var := "Service::notification_handler_"; a_kind := ARead; a_locks := [] |};
+  {| a_fn := "Service::Notify"; a_var := "Service::notification_handler_"; a_kind := ARead; a_locks := ["Service::mutex_"] |};
+  {| a_fn := "Service::CreateResourceResolver"; a_var := "Service::deployer"; a_kind := ACall; a_locks := [] |};
+  {| a_fn := "Service::CreateResourceResolver"; a_var := "Service::deployer"; a_kind := ACall; a_locks := [] |};
+  {| a_fn := "Service::CreateUserSpecificResourceResolver"; a_var := "Service::deployer"; a_kind := ACall; a_locks := [] |};
+  {| a_fn := "Service::CreateDeployedResourceResolver"; a_var := "Service::deployer"; a_kind := ACall; a_locks := [] |};
+  {| a_fn := "Service::CreateDeployedResourceResolver"; a_var := "Service::deployer"; a_kind := ACall; a_locks := [] |};
+  {| a_fn := "Service::CreateStagingResourceResolver"; a_var := "Service::deployer"; a_kind := ACall; a_locks := [] |}
+].
+
+Definition cfg_unfixed : cfg := cfg_of_table lock_scopes_unfixed.
+
+Lemma unfixed_table_not_ok : table_shape_ok lock_scopes_unfixed = true /\ table_ok lock_scopes_unfixed = false.
+Proof. vm_compute. split; reflexivity. Qed.
+
+(** data race: the worker is about to test notification_handler_ without the mutex while
+    the client is about to overwrite it without the mutex *)
+Lemma unfixed_race_refuted : exists s,
+  reach cfg_unfixed true witness_badcall_script s /\ race_state lock_scopes_unfixed s = true.
+Proof.
+  destruct (run_macro cfg_unfixed (init true witness_badcall_script) witness_race_sched) as [s|] eqn:E;
+    [|vm_compute in E; discriminate].
+  exists s. split; [eapply run_macro_reach; [apply reach_init|exact E]|].
+  vm_compute in E. inversion E; subst. vm_compute. reflexivity.
+Qed.
+
+(** and its consequence: an empty std::function is called, the exception surfaces at join *)
+Lemma unfixed_badcall_refuted : exists s,
+  reach cfg_unfixed true witness_badcall_script s /\ In EBadCall (log s) /\ hd_error (log s) = Some EJoinThrow.
+Proof.
+  destruct (run_macro cfg_unfixed (init true witness_badcall_script) witness_badcall_sched) as [s|] eqn:E;
+    [|vm_compute in E; discriminate].
+  exists s. split; [eapply run_macro_reach; [apply reach_init|exact E]|].
+  vm_compute in E. inversion E; subst. cbn. split; [tauto|reflexivity].
+Qed.
+
+(** * Non-vacuity *)
+Definition ex_script : list call := [CSyncUser [true; false; true]; CCreate; CJoin; CIsMaint; CCreate].
+
+(** a reachable state meeting the hypotheses of [excl_holds] ... *)
+Example excl_nonvacuous : forall c, exists s,
+  reach c true ex_script s /\ working s = true /\ cpcs s = CIdle /\ script s = CCreate :: [CJoin; CIsMaint; CCreate].
+Proof.
+  intros c. destruct (run_macro c (init true ex_script) (rep 6 Client)) as [s|] eqn:E.
+  - exists s. split; [eapply run_macro_reach; [apply reach_init|exact E]|].
+    destruct c as [a1 a2 a3 [] [] [] []]; vm_compute in E; inversion E; subst; cbn; auto.
+  - destruct c as [a1 a2 a3 [] [] [] []]; vm_compute in E; discriminate.
+Qed.
+
+(** ... and one for [reopens_accept], [task_not_lost_holds] and [notif_bracketed_holds]:
+    the worker has finished, three tasks were scheduled before it started and all ran,
+    the handler saw start, failure *)
+Example reopens_nonvacuous : forall c, lk_ntest c = true -> exists s,
+  reach c true ex_script s /\ working s = false /\ cpcs s = CIdle /\
+  script s = [CCreate] /\ scheds (before_last_spawn (log s)) = [2; 1; 0] /\ execs (log s) = [2; 1; 0] /\
+  rev (notifs (log s)) = [NStart; NFailure] /\ ~ In EBadCall (log s) /\
+  hd_error (log s) = Some (ERet RIsMaint 0).
+Proof.
+  intros c Hc.
+  destruct (run_macro c (init true ex_script) (rep 7 Client ++ rep 14 Worker ++ [Client; Client])) as [s|] eqn:E.
+  - exists s. split; [eapply run_macro_reach; [apply reach_init|exact E]|].
+    destruct c as [a1 a2 a3 [] [] [] []]; cbn in Hc; try discriminate Hc; vm_compute in E; inversion E; subst; cbn;
+      repeat split; auto; intros X; repeat (destruct X as [X|X]; [discriminate X|]); exact X.
+  - destruct c as [a1 a2 a3 [] [] [] []]; cbn in Hc; try discriminate Hc; vm_compute in E; discriminate.
+Qed.
